@@ -114,6 +114,9 @@ func (r *Reg) String() string {
 	if r.ParamObj {
 		b.WriteString(" In{}")
 	}
+	if r.FuncKind != 0 && r.FuncKind < len(funcKindNames) {
+		b.WriteString(" [" + funcKindNames[r.FuncKind] + "]")
+	}
 	b.WriteString(") -> ")
 	for i, o := range r.Outs {
 		if i > 0 {
